@@ -25,12 +25,12 @@ def run(tier):
     common.build(["hook"])
     common.replay_witnesses(ck, ["hook"])
     common.replay_known(ck)
-    n = 2500 if quick else 80000
+    n = 2500 if quick else 80000 * common.TS
     rng = ck.rng.fork("hist")
     plist = [{"name": "hist/%d" % i, "steps": [("snip", feat_data.map_history(rng.fork(str(i))))], "mods": []} for i in range(n)]
     prof = profiles(ck.findings.avoid_tags())[0][1]
     r2 = ck.rng.fork("mixed")
-    for i in range(300 if quick else 8000):
+    for i in range(300 if quick else 8000 * common.TS):
         src, mods = progs.generate(r2.fork(str(i)), prof)
         plist.append({"name": "mixed/%d" % i, "steps": [("snip", src)], "mods": mods})
 
